@@ -589,3 +589,93 @@ func TestVerifRotateCompressionBlocked(t *testing.T) {
 		}
 	}
 }
+
+// Retention as configured through the package's Config (Setup -> newFileWriter): for every
+// combination of KeepDays, MaxBackups, Rotation and Compress, the writer built from the Config
+// judges a directory of pre-existing backups (1, 3, 4 and 10 days old) exactly as the
+// configuration says: outdated are the backups older than KeepDays days and, under the size
+// rule, those beyond the newest MaxBackups - nothing else.
+func TestVerifLogConfigRetention(t *testing.T) {
+	defer vrt.WriteReport()
+	Disable()
+	if !vrt.Shard(11) {
+		return
+	}
+	c := vrt.NewCases("rotatelogger/config-retention")
+	vrt.RunOnce(vrt.Options{Name: "rotatelogger/config-retention", Horizon: 1 << 30}, func(r *vrt.Run) {
+		ages := []int{1, 3, 4, 10}
+		for _, rotation := range []string{"size", "daily"} {
+			for _, keepDays := range []int{0, 2, 5} {
+				for _, maxBackups := range []int{0, 2, 5} {
+					for _, compress := range []bool{false, true} {
+						base := os.Getenv("VRT_SCRATCH")
+						if base == "" {
+							base = os.TempDir()
+						}
+						dir, err := os.MkdirTemp(base, "lc")
+						if err != nil {
+							r.Failf("mkdtemp: %v", err)
+							return
+						}
+						options = logOptions{} // the package keeps its options in a process-wide variable
+						w, err := newFileWriter(Config{Path: dir, KeepDays: keepDays, MaxBackups: maxBackups, MaxSize: 1, Rotation: rotation, Compress: compress})
+						if err != nil {
+							c.Violation(fmt.Sprintf("rotation=%s keepDays=%d maxBackups=%d compress=%v", rotation, keepDays, maxBackups, compress), "setup", err.Error())
+							os.RemoveAll(dir)
+							continue
+						}
+						vrt.Settle()
+						rl := w.(*concreteWriter).infoLog.(*RotateLogger)
+						file := filepath.Join(dir, accessFilename)
+						cfg := rlCfg{rule: rotation, delim: backupFileDelimiter}
+						now := vrt.Now()
+						var names []string
+						byAge := map[string]int{}
+						for _, a := range ages {
+							n := backupName(cfg, file, now.Add(-time.Duration(a)*24*time.Hour))
+							if compress {
+								n += gzipExt
+							}
+							os.WriteFile(n, []byte("x\n"), 0o600)
+							names = append(names, n)
+							byAge[n] = a
+						}
+						sort.Strings(names)
+						want := map[string]bool{}
+						for i, n := range names {
+							if keepDays > 0 && byAge[n] > keepDays {
+								want[n] = true
+							}
+							if rotation == "size" && maxBackups > 0 && i < len(names)-maxBackups {
+								want[n] = true
+							}
+						}
+						got := map[string]bool{}
+						for _, f := range rl.rule.OutdatedFiles() {
+							got[filepath.Clean(f)] = true
+						}
+						in := fmt.Sprintf("rotation=%s keepDays=%d maxBackups=%d compress=%v", rotation, keepDays, maxBackups, compress)
+						var gotAges, wantAges []int
+						for n := range got {
+							gotAges = append(gotAges, byAge[n])
+						}
+						for n := range want {
+							wantAges = append(wantAges, byAge[n])
+						}
+						sort.Ints(gotAges)
+						sort.Ints(wantAges)
+						c.Eval(in, func() any { return map[string]any{"config": in, "outdated_ages_days": gotAges} })
+						if fmt.Sprint(gotAges) != fmt.Sprint(wantAges) {
+							c.Violation(in, "retention", fmt.Sprintf("with backups 1, 3, 4 and 10 days old the writer built from the Config calls the ones aged %v outdated, the configuration says %v", gotAges, wantAges))
+						}
+						w.Close()
+						vrt.Settle()
+						os.RemoveAll(dir)
+					}
+				}
+			}
+		}
+		options = logOptions{}
+	})
+	c.Done()
+}
